@@ -46,6 +46,9 @@ type Prop struct {
 	ChildTimeout int
 	// Finish may add evidence that is global to the run.
 	Finish func(tier string, cov map[string]any)
+	// Extra runs once per check after the cases (e.g. a coverage-guided
+	// fuzzing session); what it returns is merged like a case.
+	Extra func(tier string, seed int64) *CaseResult
 }
 
 var registry = map[string]*Prop{}
@@ -82,6 +85,14 @@ type Ctx struct {
 	Verbose bool
 	res     *CaseResult
 }
+
+// NewCtx returns a context outside the runner (fuzz targets, tests).
+func NewCtx(prop, tier string, seed int64) *Ctx {
+	return &Ctx{Prop: prop, Tier: tier, Seed: seed, Rng: rand.New(rand.NewSource(seed)), res: &CaseResult{}}
+}
+
+// Result returns what the case recorded so far.
+func (c *Ctx) Result() *CaseResult { return c.res }
 
 // Violate records a violation. Sig must be a stable description of the
 // failing class (call site, input class), msg the specifics.
@@ -346,6 +357,13 @@ func Main(id, tier string, seed int64, self string) int {
 		}(k)
 	}
 	wg.Wait()
+	if p.Extra != nil && violating == 0 {
+		if r := p.Extra(tier, seed); r != nil {
+			r.Case = total
+			results = append(results, r)
+			total++
+		}
+	}
 	sort.Slice(results, func(i, j int) bool { return results[i].Case < results[j].Case })
 	return report(p, tier, seed, total-skipped, results, harnessErrs, time.Since(start))
 }
